@@ -215,7 +215,8 @@ func daysOfMonth(year, month int) int {
 }
 
 func (t *DateTime) AddDateSpan(val DateSpan) *DateTime {
-	result := t.AddTimeSpan(TimeSpan(val.Days()) * Day)
+	// calendar days, not days*24h in nanoseconds: the latter overflows int64 beyond 106751 days
+	result := ToElkDateTime(t.native.AddDate(0, 0, val.Days()))
 	oldDay := result.Day()
 
 	month := result.Month() + int(val.months)
